@@ -37,7 +37,7 @@ def compute(facts, crates=None):
             if r.get("repr_packed") or r.get("repr_c") or r.get("repr_transparent"):
                 continue   # may be materialised from raw bytes
             for i, (name, ty, vis) in enumerate(r["variants"][0][1]):
-                if vis == "pub" and r.get("vis") == "pub":
+                if vis == "pub" and r.get("vis") == "pub" and r.get("reachable", True):
                     continue   # writable by code outside the analysed crates
                 if ty in WIDE:
                     ftype[(r["path"], name)] = ty
